@@ -1,11 +1,11 @@
 """C05 -- inversion (layer B: bounded functional checks against spec-side linear algebra; see checks/alg.py)."""
 from vplib.core import with_canaries
-from checks import alg
+from checks import alg, layer_s
 
 LEVEL = "model_checking"
 META = {"explanation": "bounded functional: one concrete (small) shape per group, every bit pattern of the operands; loop bounds found by unwinding refinement and confirmed by unwinding assertions; compared with spec-side linear algebra (contracts/alg_spec.h) that shares no code with the library",
-        "assumptions": ['n <= 4']}
+        "assumptions": ['functional clause: n <= 4', 'recursive triangular inversion: shape / window / header-balance contract only (layer S, all orders symbolic)']}
 
 
 def groups(tier, seed):
-    return with_canaries(alg.c05(tier))
+    return with_canaries(alg.c05(tier)) + with_canaries([g for g in layer_s.tri_groups(["C05", "C04", "C11"]) if g.function == "mzd_trtri_upper"])
